@@ -2,6 +2,9 @@ package jobs
 
 import (
 	"context"
+	"errors"
+
+	jobSource "github.com/mimiro-io/datahub/internal/jobs/source"
 
 	"github.com/mimiro-io/datahub/internal/server"
 )
@@ -39,4 +42,36 @@ func (j *JWorld) JRunStoredJobSync(id string) (panicked string, err error) {
 		return "", err
 	}
 	return runJob(jb), nil
+}
+
+
+// failSource fails at its n-th read (a source that goes away in the middle of a run).
+type failSource struct {
+	inner  jobSource.Source
+	failAt int
+	reads  int
+}
+
+func (f *failSource) GetConfig() map[string]interface{} { return f.inner.GetConfig() }
+func (f *failSource) StartFullSync()                    { f.inner.StartFullSync() }
+func (f *failSource) EndFullSync()                      { f.inner.EndFullSync() }
+func (f *failSource) ReadEntities(ctx context.Context, since jobSource.DatasetContinuation, batchSize int,
+	processEntities func([]*server.Entity, jobSource.DatasetContinuation) error) error {
+	f.reads++
+	if f.reads == f.failAt {
+		return errors.New("source: gone away")
+	}
+	return f.inner.ReadEntities(ctx, since, batchSize, processEntities)
+}
+
+// JRunFullSyncFailing runs a real fullsync job (real FullSyncPipeline, real dataset sink) that copies dataset src
+// into dataset sink with batch size 1 and whose source fails at its failAt-th read. Returns the recorded error of the run.
+func (j *JWorld) JRunFullSyncFailing(h *server.VHist, src, sink string, failAt int) (lastErr string, panicked string, err error) {
+	jb, jc, err := j.newJob(h, JobSpec{Sources: []string{src}, Sink: sink, JobType: "fullsync", BatchSize: 1})
+	if err != nil {
+		return "", "", err
+	}
+	jb.pipeline.spec().source = &failSource{inner: jb.pipeline.spec().source, failAt: failAt}
+	panicked = runJob(jb)
+	return j.lastResult(jc.ID).LastError, panicked, nil
 }
